@@ -2,7 +2,10 @@ package props
 
 import (
 	"bytes"
+	"compress/gzip"
+	"compress/zlib"
 	cryptorand "crypto/rand"
+	"encoding/base64"
 	"errors"
 	"fmt"
 
@@ -36,7 +39,7 @@ func init() {
 		MinDistinct:     floor(15000, 200000),
 		RequiredCells: func(string) []string {
 			return []string{"purity/encrypted-meta/history", "purity/encrypted-meta/concurrent", "roundtrip/constructed", "roundtrip/dagcbor", "roundtrip/dagjson", "roundtrip/delegation", "roundtrip/invocation", "roundtrip/string", "roundtrip/bytes",
-				"tamper/bitflip-nonce", "tamper/bitflip-mac", "tamper/bitflip-body", "tamper/truncate", "wrong-key", "wrong-key/related", "plaintext-absent", "fresh-nonce", "fresh-nonce/option-reused", "key-buffer-reused", "entropy-fault", "never-encrypted", "badkey/derived-from-right-key", "badkey/nil", "badkey/size", "badkey/zero", "len=0", "len=1024"}
+				"tamper/bitflip-nonce", "tamper/bitflip-mac", "tamper/bitflip-body", "tamper/truncate", "plain/self-describing", "plain/self-describing/kind-0", "plain/self-describing/kind-1", "plain/self-describing/kind-4", "wrong-key", "wrong-key/related", "plaintext-absent", "fresh-nonce", "fresh-nonce/option-reused", "key-buffer-reused", "entropy-fault", "never-encrypted", "badkey/derived-from-right-key", "badkey/nil", "badkey/size", "badkey/zero", "len=0", "len=1024"}
 		},
 	})
 }
@@ -75,6 +78,14 @@ func runC19(w *mon.W) {
 						plain = []byte(string(sb))[:ln]
 					} else {
 						plain = gen.Bytes(r, ln)
+						// every third binary plaintext is a payload that DESCRIBES itself (a complete gzip or zlib
+						// stream, a PNG signature, base64 text, the DAG-JSON spelling of bytes, a CBOR map, a zip
+						// header): it is data like any other and comes back byte for byte
+						if (idx/2)%2 == 0 && ln > 0 {
+							plain = selfDescribing(idx/4+rep, ln)
+							w.Cover("plain/self-describing")
+							w.Cover(fmt.Sprintf("plain/self-describing/kind-%d", (idx/4+rep)%7))
+						}
 					}
 					p := gen.Ed(idx)
 					desc := fmt.Sprintf("%s len=%d text=%v", typ, ln, isText)
@@ -591,3 +602,31 @@ func (f *failingReader) Read(p []byte) (int, error) {
 }
 
 func int64Len(x [][]byte) int { return len(x) }
+
+// selfDescribing returns a payload in a format that announces itself, made from about n bytes.
+func selfDescribing(which, n int) []byte {
+	body := bytes.Repeat([]byte("payload "), n/8+1)[:n]
+	switch which % 7 {
+	case 0:
+		var b bytes.Buffer
+		zw := gzip.NewWriter(&b)
+		_, _ = zw.Write(body)
+		_ = zw.Close()
+		return b.Bytes()
+	case 1:
+		var b bytes.Buffer
+		zw := zlib.NewWriter(&b)
+		_, _ = zw.Write(body)
+		_ = zw.Close()
+		return b.Bytes()
+	case 2:
+		return append([]byte("\x89PNG\r\n\x1a\n"), body...)
+	case 3:
+		return []byte(base64.StdEncoding.EncodeToString(body))
+	case 4:
+		return []byte(`{"/":{"bytes":"` + base64.RawStdEncoding.EncodeToString(body) + `"}}`)
+	case 5:
+		return append([]byte{0xa1, 0x61, 0x61, 0x58, byte(min(n, 23))}, body[:min(n, 23)]...)
+	}
+	return append([]byte("PK\x03\x04"), body...)
+}
